@@ -475,7 +475,16 @@ func (s *Server) handlePostTx(w http.ResponseWriter, r *http.Request) {
 		return
 	}
 
-	// TODO(fwd): Ensure halt lock is held by caller.
+	// Ensure halt lock is held by caller.
+	lockID, err := strconv.ParseInt(q.Get("lockID"), 10, 64)
+	if err != nil {
+		Error(w, r, fmt.Errorf("invalid lock id: %q", q.Get("lockID")), http.StatusBadRequest)
+		return
+	} else if !db.HoldsHaltLock(lockID) {
+		Error(w, r, fmt.Errorf("halt lock not held: %d", lockID), http.StatusConflict)
+		return
+	}
+
 	// TODO(fwd): Prevent halt lock release during copy & apply.
 
 	// Wrap request body in a chunked reader.
